@@ -77,6 +77,12 @@ def cases(tier, seed):
                                     continue
                                 out.append({"family": "fit", "shape": list(shape), "N": N, "mask": mask, "nc": nc, "data": dc,
                                             "rows": list(comp), "spatial": sp, "seed": seed})
+    # boxes of realistic size (more than 32^3 voxels) with more images than any low-rank shortcut could represent exactly
+    for shape, N, nc in (((33, 32, 32), 24, 2), ((33, 32, 32), 30, 3)) + ((((40, 40, 40), 48, 4),) if tier == "thorough" else ()):
+        for mask in ("none", "soft"):
+            # (a stack cut into row chunks makes dask's SVD of the wide matrix take minutes at this size: thorough tier only)
+            for comp in ((N,), (10, N - 10)) if tier == "thorough" and N == 24 else ((N,),):
+                out.append({"family": "fit", "shape": list(shape), "N": N, "mask": mask, "nc": nc, "data": "fullrank", "rows": list(comp), "spatial": "none", "seed": seed})
     # image stacks of other dtypes (raw integer voxels, float64) with every mask kind: the mask keeps its own precision
     for dt in ("int16", "uint8", "float64"):
         for mask in ("none", "binary", "soft"):
@@ -149,7 +155,7 @@ def _fit(case):
     sp = case["spatial"]
     sch = {"none": shape, "half-one-axis": (max(1, shape[0] // 2),) + shape[1:], "half-all-axes": tuple(max(1, s // 2) for s in shape)}[sp]
     dstack = da.from_array(stack, chunks=(tuple(case["rows"]),) + tuple(sch))
-    big = "gt500" if int(np.prod(shape)) > 500 else "le500"
+    big = "gt32768" if int(np.prod(shape)) > 32768 else "gt500" if int(np.prod(shape)) > 500 else "le500"
     sig = lambda what: f"{ID}|fit|{what}|features-{big}|spatial={'chunked' if sp != 'none' else 'whole'}"  # noqa
     viol = []
     try:
